@@ -377,6 +377,8 @@ class PersistScenario(StateScenario):
             if self.prop == "C02" and plain_only(tree0):
                 self.check_tree_shape(st, cfg, tree0, False, rec, "to_tree")
             return
+        if self.prop == "C02":
+            self.check_tree_shape(st, cfg, tree0, False, rec, "to_tree")     # what is about to be saved is plain data
         view = self.view(st, cfg)
         secrets = self.secrets_in(st, cfg)
         owners, nodes = self.cfg_nodes(st, cfg)
